@@ -134,3 +134,18 @@ Section Spec.
                             && match so_display s with [] => false | _ => true end)
                 (seq 0 (List.length srcs)) srcs.
 End Spec.
+
+(* ------------------------------------------------------------------ repeated / interleaved calls
+   The statement is about "the stack set served to the flame-graph view", for all valid profiles: it
+   holds for EVERY stack set a report serves, not only for the first one built from a fresh profile.
+   A sequence of Stacks() calls on reports that share one profile (call k made on the report with
+   options [nth k os]) is correct when every returned stack set is correct for the ORIGINAL profile
+   under that call's options, and the profile the reports hold is afterwards what it was before
+   (so that whatever is served next is again judged against the same samples). *)
+Definition check_calls (p : profile) (os : list opts) (obs : list (Z * stackset)) : bool :=
+  (fix go (os : list opts) (obs : list (Z * stackset)) : bool :=
+     match os, obs with
+     | [], [] => true
+     | o :: os', (nulls, R) :: obs' => check_stackset o p nulls R && go os' obs'
+     | _, _ => false
+     end) os obs.
